@@ -1,1 +1,191 @@
+(* Normal form reached by the scan of AlgebraicReductionRule (C07): no adjacent pair of the result
+   is reducible, at most one scalar factor remains, no identity factor remains. *)
+From Coq Require Import List Bool Arith ZArith NArith QArith String Lia.
 From Furax Require Import Base.Pytree Model.Op Model.Algebra.
+Import ListNotations.
+Local Close Scope Q_scope.
+Local Open Scope nat_scope.
+
+Section Normal.
+  Variable K : Type.
+  Variable keqb : K -> K -> bool.
+  Variables (k1 : K) (kmul : K -> K -> K).
+  Notation op := (op K).
+  Variable rr : op -> result op.
+  Variable order : list rule_id.
+  Notation fires := (fires keqb kmul rr order).
+  Notation scan := (scan keqb k1 kmul rr).
+  Notation homothety_rule := (homothety_rule k1 kmul).
+
+  Definition irreducible_at (ops : list op) (j : nat) : Prop :=
+    forall l r, nth_error ops j = Some l -> nth_error ops (S j) = Some r -> fires l r = Ok None.
+  Definition normal (ops : list op) : Prop := forall j, irreducible_at ops j.
+
+  Lemma nth_error_splice_lt (ops new rest : list op) index j :
+    j < index -> index <= List.length ops ->
+    nth_error (firstn index ops ++ new ++ rest) j = nth_error ops j.
+  Proof.
+    intros Hj Hi. rewrite nth_error_app1 by (rewrite firstn_length; lia).
+    revert ops index Hj Hi. induction j as [|j IHj]; intros [|a ops] [|index] Hj Hi; cbn in *; try lia; try reflexivity.
+    apply IHj; lia.
+  Qed.
+
+  Lemma bind_ok A B (r : result A) (f : A -> result B) b :
+    bind r f = Ok b -> exists a, r = Ok a /\ f a = Ok b.
+  Proof. destruct r; cbn; [eauto|discriminate]. Qed.
+
+  (* the loop invariant: every pair left of `index` is irreducible *)
+  Lemma scan_normal fuel : forall ops index res,
+    scan fuel order ops index = Ok res ->
+    (forall j, j < index -> irreducible_at ops j) ->
+    normal res.
+  Proof.
+    induction fuel as [|fuel IH]; intros ops index res Hs Hinv; [discriminate|].
+    cbn [Algebra.scan] in Hs. destruct (Nat.ltb (S index) (List.length ops)) eqn:Hlt.
+    - apply Nat.ltb_lt in Hlt.
+      destruct (nth_error ops index) as [l|] eqn:El; [|discriminate].
+      destruct (nth_error ops (S index)) as [r|] eqn:Er; [|discriminate].
+      apply bind_ok in Hs as (fr & Hf & Hs). destruct fr as [new0|].
+      + destruct (existsb _ (identity_rule new0)).
+        * (* a scalar was produced: relocate, restart from the left *)
+          eapply IH; [exact Hs|]. intros j Hj; lia.
+        * (* splice and step back by one *)
+          eapply IH; [exact Hs|]. intros j Hj l' r' Hl' Hr'.
+          rewrite nth_error_splice_lt in Hl' by lia.
+          rewrite nth_error_splice_lt in Hr' by lia.
+          apply (Hinv j); [lia|exact Hl'|exact Hr'].
+      + eapply IH; [exact Hs|]. intros j Hj.
+        destruct (Nat.eq_dec j index) as [->|Hne].
+        * intros l' r' Hl' Hr'. congruence.
+        * apply Hinv; lia.
+    - apply Nat.ltb_ge in Hlt. inversion Hs; subst res. intros j l r Hl Hr.
+      destruct (Nat.lt_ge_cases j index) as [Hj|Hj]; [exact (Hinv j Hj l r Hl Hr)|].
+      assert (S j < List.length ops) by (apply nth_error_Some; congruence). lia.
+  Qed.
+
+  (* ---------- scalar factors ---------- *)
+  Definition nhom (ops : list op) : nat := List.length (filter (@is_homoth K) ops).
+  Lemma nhom_app a b : nhom (a ++ b) = nhom a + nhom b.
+  Proof. unfold nhom. now rewrite filter_app, app_length. Qed.
+  Lemma nhom_others ops : nhom (filter (fun e => negb (is_homoth e)) ops) = 0.
+  Proof.
+    unfold nhom. induction ops as [|e r IH]; [reflexivity|]. cbn [filter].
+    destruct (is_homoth e) eqn:E; cbn [negb]; [exact IH|]. cbn [filter]. now rewrite E.
+  Qed.
+  Lemma homothety_rule_one ops : nhom (homothety_rule ops) <= 1.
+  Proof.
+    unfold Algebra.homothety_rule. destruct ops as [|a [|b r]].
+    - cbn. lia.
+    - unfold nhom. cbn. destruct (is_homoth a); cbn; lia.
+    - fold (nhom (a :: b :: r)).
+      destruct (Nat.eqb (nhom (a :: b :: r)) 0) eqn:E0; [apply Nat.eqb_eq in E0; lia|].
+      match goal with |- context [if ?c then a :: b :: r else _] => destruct c eqn:Ec end.
+      + apply andb_true_iff in Ec as [Ec _]. apply Nat.eqb_eq in Ec. lia.
+      + destruct (Nat.leb _ _).
+        * change (nhom ([Homoth fresh (homoth_value k1 kmul (a :: b :: r)) (out_struct a)] ++
+                        filter (fun e => negb (is_homoth e)) (a :: b :: r)) <= 1).
+          rewrite nhom_app, nhom_others. unfold nhom; cbn. lia.
+        * rewrite nhom_app, nhom_others. unfold nhom; cbn. lia.
+  Qed.
+  Lemma nhom_firstn ops n : nhom (firstn n ops) <= nhom ops.
+  Proof. rewrite <- (firstn_skipn n ops) at 2. rewrite nhom_app. lia. Qed.
+  Lemma nhom_skipn ops n : nhom (skipn n ops) <= nhom ops.
+  Proof. rewrite <- (firstn_skipn n ops) at 2. rewrite nhom_app. lia. Qed.
+  Lemma nhom_split ops n : nhom ops = nhom (firstn n ops) + nhom (skipn n ops).
+  Proof. rewrite <- (firstn_skipn n ops) at 1. now rewrite nhom_app. Qed.
+  Lemma skipn_add (l : list op) n m : skipn (n + m) l = skipn m (skipn n l).
+  Proof. revert l; induction n as [|n IH]; intros [|a l]; cbn; auto. now destruct m. Qed.
+  Lemma existsb_nhom l : existsb (@is_homoth K) l = false -> nhom l = 0.
+  Proof.
+    unfold nhom. induction l as [|e r IH]; [reflexivity|]. cbn. destruct (is_homoth e); [discriminate|]. exact IH.
+  Qed.
+
+  Lemma scan_one_scalar fuel : forall ops index res,
+    scan fuel order ops index = Ok res -> nhom ops <= 1 -> nhom res <= 1.
+  Proof.
+    induction fuel as [|fuel IH]; intros ops index res Hs Hn; [discriminate|].
+    cbn [Algebra.scan] in Hs. destruct (Nat.ltb (S index) (List.length ops)).
+    - destruct (nth_error ops index) as [l|]; [|discriminate].
+      destruct (nth_error ops (S index)) as [r|]; [|discriminate].
+      apply bind_ok in Hs as (fr & Hf & Hs). destruct fr as [new0|].
+      + destruct (existsb _ (identity_rule new0)) eqn:Eh.
+        * eapply IH; [exact Hs|]. apply homothety_rule_one.
+        * eapply IH; [exact Hs|]. rewrite !nhom_app, (existsb_nhom _ Eh).
+          pose proof (nhom_split ops index) as H1.
+          pose proof (nhom_skipn (skipn index ops) 2) as H2. rewrite <- skipn_add in H2. lia.
+      + eapply IH; eauto.
+    - inversion Hs; subst. exact Hn.
+  Qed.
+
+  (* ---------- identity factors ---------- *)
+  Definition no_ident (ops : list op) : Prop := Forall (fun e => is_ident e = false) ops.
+  Lemma identity_rule_no_ident ops : no_ident (identity_rule ops).
+  Proof.
+    unfold no_ident, identity_rule. apply Forall_forall. intros e He. apply filter_In in He as [_ He].
+    now apply negb_true_iff in He.
+  Qed.
+  Lemma no_ident_app a b : no_ident a -> no_ident b -> no_ident (a ++ b).
+  Proof. unfold no_ident. intros Ha Hb. induction Ha; cbn; auto. Qed.
+  Lemma no_ident_firstn n ops : no_ident ops -> no_ident (firstn n ops).
+  Proof. unfold no_ident. revert n. induction ops as [|a r IH]; intros [|n] H; cbn; try constructor;
+    inversion H; subst; auto. Qed.
+  Lemma no_ident_skipn n ops : no_ident ops -> no_ident (skipn n ops).
+  Proof. unfold no_ident. revert n. induction ops as [|a r IH]; intros [|n] H; cbn; auto.
+    inversion H; subst; auto. Qed.
+  Lemma homothety_rule_no_ident ops : no_ident ops -> no_ident (homothety_rule ops).
+  Proof.
+    intros H. unfold Algebra.homothety_rule. destruct ops as [|a [|b r]]; try exact H.
+    destruct (Nat.eqb _ 0); [exact H|].
+    match goal with |- context [if ?c then a :: b :: r else _] => destruct c end; [exact H|].
+    assert (Ho : no_ident (filter (fun e => negb (is_homoth e)) (a :: b :: r))).
+    { unfold no_ident in *. rewrite Forall_forall in *. intros e He. apply filter_In in He as [He _]. auto. }
+    destruct (Nat.leb _ _).
+    - constructor; [reflexivity|exact Ho].
+    - apply no_ident_app; [exact Ho|]. constructor; [reflexivity|constructor].
+  Qed.
+  Lemma scan_no_ident fuel : forall ops index res,
+    scan fuel order ops index = Ok res -> no_ident ops -> no_ident res.
+  Proof.
+    induction fuel as [|fuel IH]; intros ops index res Hs Hn; [discriminate|].
+    cbn [Algebra.scan] in Hs. destruct (Nat.ltb (S index) (List.length ops)).
+    - destruct (nth_error ops index) as [l|]; [|discriminate].
+      destruct (nth_error ops (S index)) as [r|]; [|discriminate].
+      apply bind_ok in Hs as (fr & Hf & Hs). destruct fr as [new0|].
+      + assert (Hsp : no_ident (firstn index ops ++ identity_rule new0 ++ skipn (index + 2) ops)).
+        { apply no_ident_app; [now apply no_ident_firstn|].
+          apply no_ident_app; [apply identity_rule_no_ident|now apply no_ident_skipn]. }
+        destruct (existsb _ (identity_rule new0)).
+        * eapply IH; [exact Hs|]. now apply homothety_rule_no_ident.
+        * eapply IH; eauto.
+      + eapply IH; eauto.
+    - inversion Hs; subst. exact Hn.
+  Qed.
+
+  (* ---------- the n-ary rule as a whole ---------- *)
+  Theorem algebraic_normal_l fuel ops res :
+    algebraic_reduction keqb k1 kmul rr fuel order ops = Ok res -> 2 <= List.length ops ->
+    normal res /\ nhom res <= 1 /\ (no_ident res \/ exists s, res = [Ident fresh s]).
+  Proof.
+    unfold Algebra.algebraic_reduction. destruct ops as [|a [|b rest]]; cbn [List.length]; try lia.
+    intros H _. apply bind_ok in H as (res' & Hs & H).
+    pose proof (scan_normal _ _ _ _ Hs ltac:(intros; lia)) as Hn.
+    pose proof (scan_one_scalar _ _ _ _ Hs (homothety_rule_one _)) as H1.
+    pose proof (scan_no_ident _ _ _ _ Hs (homothety_rule_no_ident _ (identity_rule_no_ident _))) as Hi.
+    destruct res' as [|c r]; inversion H; subst res.
+    - split; [|split].
+      + intros j l r Hl Hr. destruct j; cbn in Hr; [discriminate|destruct j; discriminate].
+      + unfold nhom; cbn; lia.
+      + right. eauto.
+    - auto.
+  Qed.
+
+  (* a pair on which some rule fires never stays adjacent in the result *)
+  Corollary pattern_never_survives_l fuel ops res l r new j :
+    algebraic_reduction keqb k1 kmul rr fuel order ops = Ok res -> 2 <= List.length ops ->
+    fires l r = Ok (Some new) ->
+    ~ (nth_error res j = Some l /\ nth_error res (S j) = Some r).
+  Proof.
+    intros H Hlen Hf [Hl Hr]. destruct (algebraic_normal_l _ _ _ H Hlen) as [Hn _].
+    rewrite (Hn j l r Hl Hr) in Hf. discriminate.
+  Qed.
+End Normal.
